@@ -14,17 +14,17 @@ import (
 	"time"
 
 	"github.com/libp2p/go-libp2p-kad-dht/internal/verifsim"
-	"github.com/libp2p/go-libp2p/core/routing"
 	record "github.com/libp2p/go-libp2p-record"
+	"github.com/libp2p/go-libp2p/core/routing"
 	"pgregory.net/rapid"
 )
 
 type valSc struct {
-	Lk       lkSc   `json:"lookup"`
-	Quorum   int    `json:"quorum"`
-	Local    int    `json:"local"` // 0 none; 1..9 valid local record of that rank; -5 local record that has expired by the validator's rule
-	UseGet   bool   `json:"use_get"`
-	CancelMs int    `json:"cancel_ms,omitempty"`
+	Lk       lkSc `json:"lookup"`
+	Quorum   int  `json:"quorum"`
+	Local    int  `json:"local"` // 0 none; 1..9 valid local record of that rank; -5 local record that has expired by the validator's rule
+	UseGet   bool `json:"use_get"`
+	CancelMs int  `json:"cancel_ms,omitempty"`
 }
 
 type emitted struct {
